@@ -524,6 +524,8 @@ def main(tier):
     rep.attempt(foldconst.check, rep, {'crc', 'crc_copy'}, 900)
     import crctwins
     rep.attempt(crctwins.check, rep)
+    import tailbytes
+    rep.attempt(tailbytes.check, rep)
     rep.attempt(bounds.check_len_width, rep, {'crc', 'crc_copy', 'adler'}, 'CRC', 31)
     import stridecover
     rep.attempt(stridecover.check, rep, 'CRC', {'crc', 'crc_copy', 'adler'}, 80)
